@@ -812,6 +812,18 @@ def baseline_attrs():
 
 
 _SIB = {}
+_PARSED = {}
+
+
+def _parsed_file(path):
+    """ast of a source file, parsed once per process (read-only uses)"""
+    if path not in _PARSED:
+        try:
+            with open(path, "r", encoding="utf-8", errors="replace") as f:
+                _PARSED[path] = ast.parse(f.read())
+        except (OSError, SyntaxError):
+            _PARSED[path] = None
+    return _PARSED[path]
 
 
 def _sibling_trees(path):
@@ -826,11 +838,9 @@ def _sibling_trees(path):
             names = []
         for fn in names:
             if fn.endswith(".py") and fn != os.path.basename(path) and not fn.startswith("test_"):
-                try:
-                    with open(os.path.join(d, fn), "r", encoding="utf-8", errors="replace") as f:
-                        out.append(ast.parse(f.read()))
-                except (OSError, SyntaxError):
-                    pass
+                t = _parsed_file(os.path.join(d, fn))
+                if t is not None:
+                    out.append(t)
         _SIB[key] = out
     return _SIB[key]
 
@@ -1429,10 +1439,8 @@ class Inliner:
                 b2 = baseline().get(f[:-3])
                 if b2 is None:
                     continue
-                try:
-                    with open(os.path.join(d_, f), "r", encoding="utf-8") as fh_:
-                        t2 = ast.parse(fh_.read())
-                except (OSError, SyntaxError):
+                t2 = _parsed_file(os.path.join(d_, f))
+                if t2 is None:
                     continue
                 for cls_ in [x for x in t2.body if isinstance(x, ast.ClassDef)]:
                     for m_ in cls_.body:
